@@ -38,6 +38,9 @@ structure WfField (f : Field) : Prop where
   first_no_nl : nl ∉ f.first
   conts_no_nl : ∀ c ∈ f.conts, nl ∉ c
   conts_not_dot : ∀ c ∈ f.conts, c ≠ [dot]
+  /-- a continuation line is empty (written as the marker) or holds something other than blanks and tabs: a line of
+      nothing but white space would end the stanza for the format's own parser -/
+  conts_not_blank : ∀ c ∈ f.conts, c ≠ [] → (c.all (fun x => x = space || x = 9)) = false
 
 /-- the physical lines of one field -/
 def contLine (c : Bytes) : Bytes := space :: (if c = [] then [dot] else c)
@@ -116,7 +119,7 @@ theorem splitKeyValue_line (k v : Bytes) (hk : (58 : UInt8) ∉ k) : splitKeyVal
   simp
 
 theorem parseLines_conts (cs pre : List Bytes) (f : Field) (acc : List Field) (rest : List Bytes)
-    (hdot : ∀ c ∈ cs, c ≠ [dot]) :
+    (hdot : ∀ c ∈ cs, c ≠ [dot]) (hbl : ∀ c ∈ cs, c ≠ [] → (c.all (fun x => x = space || x = 9)) = false) :
     parseLines (cs.map contLine ++ rest) ({ f with conts := pre } :: acc)
       = parseLines rest ({ f with conts := pre ++ cs } :: acc) := by
   induction cs generalizing pre with
@@ -125,6 +128,12 @@ theorem parseLines_conts (cs pre : List Bytes) (f : Field) (acc : List Field) (r
     simp only [List.map_cons, List.cons_append, contLine]
     conv => lhs; unfold parseLines
     simp only [if_true]
+    have hnb : ((if c = [] then [dot] else c).all (fun x => x = space || x = 9)) = false := by
+      by_cases h : c = []
+      · simp [h]; decide
+      · simp only [h, if_false]; exact hbl c (by simp) h
+    rw [hnb]
+    simp only [Bool.false_eq_true, if_false]
     unfold addCont
     simp only []
     have hc : (if (if c = [] then [dot] else c) = [dot] then ([] : Bytes) else (if c = [] then [dot] else c)) = c := by
@@ -132,7 +141,7 @@ theorem parseLines_conts (cs pre : List Bytes) (f : Field) (acc : List Field) (r
       · simp [h]
       · simp [h, hdot c (by simp)]
     rw [hc]
-    have := ih (pre ++ [c]) (fun x hx => hdot x (List.mem_cons_of_mem _ hx))
+    have := ih (pre ++ [c]) (fun x hx => hdot x (List.mem_cons_of_mem _ hx)) (fun x hx => hbl x (List.mem_cons_of_mem _ hx))
     simpa using this
 
 theorem parseLines_fields (fs : List Field) (hwf : ∀ f ∈ fs, WfField f) (acc : List Field) :
@@ -159,7 +168,7 @@ theorem parseLines_fields (fs : List Field) (hwf : ∀ f ∈ fs, WfField f) (acc
       rw [hsp']
       simp only []
       have hc := parseLines_conts f.conts [] { key := f.key, first := f.first } acc
-        (rest.flatMap fieldLines ++ [[]]) w.conts_not_dot
+        (rest.flatMap fieldLines ++ [[]]) w.conts_not_dot w.conts_not_blank
       simp only [List.nil_append] at hc
       rw [hc, ih (fun g hg => hwf g (List.mem_cons_of_mem _ hg))]
       simp
